@@ -271,4 +271,7 @@ def run(ck, tier):
     from .. import ownership as _own2
     ck.rule('R5', 'no unsound memoisation (a caching decorator on a method, or on a function that returns a mutable container) in the modules this property rests on')
     ck.guard(_own2.rule_no_unsafe_memo, ck, cx, 'R5', ('pymodbus.framer', 'pymodbus.framer.socket_framer', 'pymodbus.framer.rtu_framer', 'pymodbus.framer.ascii_framer', 'pymodbus.framer.binary_framer', 'pymodbus.framer.tls_framer', 'pymodbus.utilities'), 'an integrity check is answered from a value cached for other bytes')
+    from ..share import import_findings as _imp2
+    ck.rule('R6', 'the bytes the integrity check sees are the bytes that were received: addToFrame appends the chunk unmodified (shared with C06 R7)')
+    _imp2(ck, 'C06', 'R6', ('R7',), 'the checksum is then computed over repaired bytes: a frame that was damaged on the line is accepted')
     return cx.idx
